@@ -50,6 +50,14 @@ def judge_program(case, judge, caps=None):
             cnt["vm_runs"] += 1
             if vm["status"] == "unmodelled":
                 cnt["unmodelled"] += 1
+                why = vm.get("reason", "")
+                if judge == "trace" and why.startswith(("not loadable", "operand ", "dest ", "unresolved name", "device ")):
+                    # the emitted text cannot be executed at all (unknown opcode, wrong operand count, a literal or a
+                    # device where a register must stand): the program has no behaviour to compare
+                    if trig is None:
+                        trig = triggers_of(src)
+                    vio.append(dict(signature=dict(monitor="trace", event="emitted-code-not-executable", machine_event=None, **oc), triggers=trig, detail=dict(reason=why, options=c.key, code=c.code[:2500])))
+                    break
                 continue
             st = vm["stat"]
             cnt["calls_executed"] += st.get("calls", 0)
